@@ -119,8 +119,15 @@ class Ctx:
         extra = ("Scripts", "Pipeline", "per_dataset_benchmark.py")
         self.prog = Program(self.repo, extra=extra)
         self.inlined: list = []
+        self.canonicalised: list = []
         if os.environ.get("SYNLINT_NO_INLINE") != "1":
             self.inlined = normalise(self.prog)
+        if os.environ.get("SYNLINT_NO_CANON") != "1":
+            from .canon import canonicalise
+
+            for q in sorted(self.prog.functions):
+                if q.startswith(self.prog.package + ".") and canonicalise(self.prog.functions[q]):
+                    self.canonicalised.append(q)
         self.res = Resolver(self.prog)
         self.ev = Evaluator(self.prog, self.res)
         self.findings: List[Finding] = []
